@@ -19,7 +19,7 @@ fn run_mode(mode: &str, tier: &str, seed: u64) -> Option<Report> {
 fn main() {
     let args: Vec<String> = std::env::args().collect();
     // panics inside catch() are expected; keep stderr quiet
-    std::panic::set_hook(Box::new(|_| {}));
+    bx::util::install_panic_recorder(std::env::var("BX_PANIC_VERBOSE").is_ok());
     if args.len() >= 2 && args[1] == "selftest" {
         match refcrypto::selftest() { Ok(()) => { println!("selftest ok"); } Err(e) => { println!("selftest FAILED: {}", e); std::process::exit(2); } }
         // print digests of fixed inputs so that setup can compare them with python hashlib / zlib
@@ -56,7 +56,16 @@ fn main() {
             // generic: re-run the mode with the recorded seed (witness formats that embed only a case index)
             let seed: u64 = std::env::var("VERIF_SEED").ok().and_then(|s| s.parse().ok()).unwrap_or(1);
             let m2 = mode.clone();
-            if let Some(Some(r)) = with_timeout(600, move || run_mode(&m2, "quick", seed)) { rep.violations = r.violations; }
+            match bx::util::watch(600, move || run_mode(&m2, "quick", seed)) {
+                bx::util::Watched::Done(Some(r)) => { rep.violations = r.violations; }
+                bx::util::Watched::Done(None) => {}
+                bx::util::Watched::TimedOut => rep.violate(&format!("{}:hang", mode.to_uppercase()), "the mode does not terminate".into(), w.clone()),
+                bx::util::Watched::Panicked(m) => {
+                    let (loc, msg) = bx::util::LAST_PANIC.lock().ok().and_then(|g| g.clone()).unwrap_or((String::new(), m));
+                    if loc.contains("stun-types") || loc.contains("stun-proto") { rep.violate(&format!("{}:panic", mode.to_uppercase()), format!("the real code panicked at {}: {}", loc, msg), w.clone()); }
+                    else { println!("stand-in expectation failed at {}: {}", loc, msg); }
+                }
+            }
         }
         for v in &rep.violations { println!("REPRODUCED {}: {}", v.key, v.what); }
         std::process::exit(if rep.violations.is_empty() { 0 } else { 1 });
@@ -66,14 +75,30 @@ fn main() {
     if let Err(e) = refcrypto::selftest() { println!("{{\"mode\":{},\"error\":{}}}", jstr(&mode), jstr(&format!("reference crypto self-test failed: {}", e))); std::process::exit(2); }
     let budget = if tier == "thorough" { 3000 } else { 420 };
     let (m2, t2) = (mode.clone(), tier.clone());
-    match with_timeout(budget, move || run_mode(&m2, &t2, seed)) {
-        Some(Some(rep)) => { println!("{}", rep.to_json()); }
-        Some(None) => { eprintln!("unknown mode {}", mode); std::process::exit(2); }
-        None => {
+    match bx::util::watch(budget, move || run_mode(&m2, &t2, seed)) {
+        bx::util::Watched::Done(Some(rep)) => { println!("{}", rep.to_json()); }
+        bx::util::Watched::Done(None) => { eprintln!("unknown mode {}", mode); std::process::exit(2); }
+        bx::util::Watched::TimedOut => {
             let mut rep = Report::new(&mode, "watchdog");
             rep.evaluations = 1;
             rep.violate(&format!("{}:hang", mode.to_uppercase()), format!("mode {} did not finish within {} s: an operation on the real code does not terminate (or is far too slow)", mode, budget), format!("{}:rerun", mode));
             println!("{}", rep.to_json());
+        }
+        bx::util::Watched::Panicked(m) => {
+            // a panic that no guard of the stand-in expected.  Raised inside the library => the real code panicked on an
+            // API use that never panics on the unchanged tree: a violation of the property whose operation it was.
+            // Raised inside the stand-in (an unwrap/index on something the library returned) => the stand-in cannot
+            // evaluate the property on this tree: undecided, never an alarm.
+            let (loc, msg) = bx::util::LAST_PANIC.lock().ok().and_then(|g| g.clone()).unwrap_or((String::new(), m));
+            let in_library = loc.contains("stun-types") || loc.contains("stun-proto");
+            if in_library {
+                let mut rep = Report::new(&mode, "watchdog");
+                rep.evaluations = 1;
+                rep.violate(&format!("{}:panic", mode.to_uppercase()), format!("mode {}: the real code panicked at {}: {}", mode, loc, msg), format!("{}:rerun", mode));
+                println!("{}", rep.to_json());
+            } else {
+                println!("{{\"mode\":{},\"error\":{}}}", jstr(&mode), jstr(&format!("the stand-in could not evaluate this tree (its own expectation failed at {}: {})", loc, msg)));
+            }
         }
     }
 }
